@@ -770,7 +770,13 @@ def _options(ctx, keys):
         if k is None or k.options is None:
             raise AnalysisError('schema option %s vanished' % IP.fmt(path))
         fi = repo.func(modn, fn)
-        accepted = {s.lower() for s in _str_compares(fi, None)}
+        if fn.startswith('_import_'):
+            # decided over the finite set of names by the finite-domain
+            # evaluator (whatever the spelling of the dispatch)
+            from .c12 import importer_table
+            accepted = {s.lower() for s in importer_table(repo, fi)}
+        else:
+            accepted = {s.lower() for s in _str_compares(fi, None)}
         opts = [o for o in k.options if o not in ('None',)]
         missing = [o for o in opts if o.lower() not in accepted and
                    o.lower().replace('-', '') not in
